@@ -112,6 +112,10 @@ func (u *Unit) describe(v ssa.Value, depth int) string {
 		if same && len(parts) > 0 {
 			return parts[0]
 		}
+		if x.Comment != "" {
+			// the source variable this phi merges (e.g. a flag set on one branch)
+			return x.Comment
+		}
 		return "phi(" + strings.Join(parts, " | ") + ")"
 	case *ssa.MakeInterface:
 		return u.describe(x.X, depth)
